@@ -25,7 +25,7 @@ def run(chk, prop="C02", auth=False):
         "Apollo-compatibility options, custom field renderers, UnescapeResponseJson, type-name renaming, cost control and extensions are outside the model",
         "go harness: harness/plan (generator, plan builder), harness/cmd/c02; Go's encoding/json.Valid is the validity oracle for the output text",
     ]
-    chk.proof_side()
+    chk.proof_side(extra_dirs=([] if prop == "C02" else ["C02"]))
     ok, log = vlib.build_model("C02")
     if not ok:
         chk.add_violation("tie:%s/model-build" % prop, log[-2000:], found_input=False)
